@@ -431,7 +431,7 @@ def custom_style(draw):
     o = draw(st.lists(st.text(SEG_CHARS, min_size=wo, max_size=wo), min_size=4 if six else 2, max_size=4 if six else 2, unique=True))
     if six and draw(st.sampled_from([0, 1])):
         # a 6-segment style that re-uses ONE string object for two of its segments (as a tuple written in code does)
-        i, j = draw(st.sampled_from([(2, 0), (3, 1), (2, 1), (3, 0)]))
+        i, j = draw(st.sampled_from([(2, 0), (2, 0), (3, 1), (2, 1), (3, 0)]))
         o[i] = o[j]
     return a + o
 
@@ -465,7 +465,7 @@ def hyp_cases(draw, tier):
 
         eq_(spec)
     n = gen.spec_nodes(spec)
-    style = draw(st.one_of(st.sampled_from(STYLES), st.sampled_from(STYLES), custom_style(), st.just("list"), st.none()))
+    style = draw(st.one_of(st.sampled_from(STYLES), st.sampled_from(STYLES), custom_style(), custom_style(), st.just("list"), st.none()))
     return {
         "spec": spec,
         "typed": typed,
